@@ -103,6 +103,8 @@ type ReuseSpec struct {
 	// writes | outer (relying party): the rp.WithVerifierOpts element of the kept []rp.Option is overwritten with
 	// rp.WithVerifierOpts(options of Other...) and a second relying party is constructed from that slice
 	Second string `json:"second,omitempty"`
+	// Vals: the []string inside the options (acr levels, algorithms) are sub-slices of lists the caller keeps (vals_test.go)
+	Vals *ValsSpec `json:"vals,omitempty"`
 }
 
 // Step is one entry of a history on ONE verifier instance in one process: a verification, or a call of an exported helper
@@ -115,6 +117,7 @@ type Step struct {
 	Use    string     `json:"use,omitempty"`     // hasher: write | write+sum | write+sum+reset; hashstring: half | full
 	AtHash string     `json:"at_hash,omitempty"` // verifyat: class of the presented at_hash
 	Writes [][2]int   `json:"writes,omitempty"`  // overwrite (only with Case.Reuse): further writes into the kept option slice, between verifications
+	ValOps []ValOp    `json:"val_ops,omitempty"` // overwrite (only with Case.Reuse.Vals): in-place changes of the caller's value lists
 }
 
 type Case struct {
@@ -332,6 +335,7 @@ func genTrustedToken(t *rapid.T, c *Case, atBias bool) TokenSpec {
 	on, cfg := genTarget(t, c)
 	tok := genToken(t, cfg, atBias, genVia(t, c))
 	tok.On = on
+	retarget(t, c, cfg, &tok)
 	trust(t, c, &tok)
 	return tok
 }
@@ -395,7 +399,11 @@ func genCase(t *rapid.T) Case {
 			c.Steps = append(c.Steps, genHelper(t, algsOf(&c)))
 		}
 		if c.Reuse != nil && rapid.IntRange(0, 3).Draw(t, "overwrite") == 0 {
-			c.Steps = append(c.Steps, Step{Op: "overwrite", Writes: genWrites(t, 1)})
+			st := Step{Op: "overwrite", Writes: genWrites(t, 1)}
+			if v := c.Reuse.Vals; v != nil {
+				st.ValOps = genValOps(t, v, rapid.IntRange(0, 2).Draw(t, "nstepvalops"))
+			}
+			c.Steps = append(c.Steps, st)
 		}
 		var tok TokenSpec
 		if rapid.IntRange(0, 4).Draw(t, "again") == 0 {
@@ -896,8 +904,19 @@ type sut struct {
 	vs      []*rp.IDTokenVerifier // verifiers on their own
 	parties []rp.RelyingParty
 	cfgs    []Config // the configuration each was constructed with
+	srcs    [][2]int
 	op      *fakeOP
 	keep    *keep
+	sym     *lists // the model's own copy of the caller's value lists (nil without Case.Reuse.Vals)
+}
+
+// applyVals: the caller changes its value lists in place (the real ones and, in step, the model's).
+func (s *sut) applyVals(ops []ValOp) {
+	if s.sym == nil {
+		return
+	}
+	s.keep.lists.apply(ops)
+	s.sym.apply(ops)
 }
 
 // verifier: as an application gets at it when it needs it.
@@ -916,8 +935,13 @@ func (s *sut) party(on int) rp.RelyingParty {
 }
 
 func newSUT(c Case) (*sut, error) {
-	s := &sut{keep: newKeep(c), cfgs: planOf(c).cfgs}
+	p := planOf(c)
+	s := &sut{keep: newKeep(c), cfgs: p.cfgs, srcs: p.srcs}
 	k := s.keep
+	vals := valsOf(c)
+	if vals != nil {
+		s.sym = newLists(vals)
+	}
 	construct := func() error {
 		if c.RP == nil {
 			s.vs = append(s.vs, rp.NewIDTokenVerifier(c.Cfg.Issuer, c.Cfg.ClientID, keySet(c), k.inner...))
@@ -942,6 +966,14 @@ func newSUT(c Case) (*sut, error) {
 		return s, nil
 	}
 	// the caller goes on to its next configuration
+	if vals != nil {
+		s.applyVals(vals.Early)
+		s.sym.handOther(vals)
+	}
+	k.buildOther(c)
+	if vals != nil {
+		s.applyVals(vals.Ops)
+	}
 	k.overwrite(c.Reuse.Writes)
 	switch secondOf(c) {
 	case "inner":
@@ -965,6 +997,7 @@ type built struct {
 	via   string
 	on    int    // the verifier / relying party of the case it goes to
 	cfg   Config // the configuration that one was constructed with
+	alias *Config // != nil: the same with the policies read from the caller's lists as they are now (changed in place since)
 	prep  prepared
 }
 
@@ -973,6 +1006,9 @@ func buildToken(c Case, s *sut, tok *TokenSpec, t0 time.Time) built {
 	pm, payload := buildPayload(*tok, t0)
 	b := built{pm: pm, token: vkit.MustSignJWT(tok.Alg, tok.Key, vkit.Key(tok.Key), payload), t0: t0, via: viaOf(c, tok), on: onOf(c, tok)}
 	b.cfg = s.cfgs[b.on]
+	if s.sym != nil && b.on < len(s.srcs) {
+		b.alias = aliasView(b.cfg, s.srcs[b.on], s.sym)
+	}
 	b.prep = prepare(b.cfg, s.party(b.on), b.via, tok, b.token)
 	return b
 }
@@ -1079,6 +1115,15 @@ func judgeVerify(res *vkit.Result, c Case, tok TokenSpec, b built, o outcome, wh
 		verdict = 0
 		grey = append(grey, "slow-clock")
 	}
+	if b.alias != nil {
+		// the caller changed, in place, elements this verifier's policies were built from
+		res.Label("vals:policy-elements-changed-in-place-by-caller")
+		if v2, _, _ := model(*b.alias, tok, contains(c.Trusted, tok.Key), via); v2 != verdict {
+			verdict = 0
+			grey = append(grey, "values-changed-in-place-by-caller")
+			res.Label("vals:grey-verdict-depends-on-construction-vs-present-values")
+		}
+	}
 	claims, err := o.claims, o.err
 	accepted := err == nil
 	at := "" // entry point in fingerprints and messages (none for the verifier called directly: the fingerprints of before)
@@ -1138,6 +1183,7 @@ func judgeVerify(res *vkit.Result, c Case, tok TokenSpec, b built, o outcome, wh
 	labelVia(res, c, via, verdict, reject)
 	labelTyped(res, tok, verdict)
 	labelReuse(res, c, tok, b, verdict)
+	labelVals(res, c, tok, b, verdict)
 
 	nm := len(reject) + len(grey)
 	return stepInfo{Op: "verify", Accepted: accepted, Model: verdict, Reject: reject, Grey: grey, Via: via,
@@ -1268,6 +1314,7 @@ func hashFamily(alg string) string {
 
 func run(c Case) *vkit.Result {
 	res := &vkit.Result{}
+	c = normal(c)
 	v, err := newSUT(c)
 	if err != nil {
 		// discovery against the fake OP is not what this property is about: nothing asserted
@@ -1283,6 +1330,7 @@ func run(c Case) *vkit.Result {
 			what = "rp"
 		}
 		res.Label("reuse:" + what + "/second=" + secondOf(c))
+		labelValsCase(res, c)
 		if !reflect.DeepEqual(p.now, c.Cfg) {
 			res.Label("reuse:slice-describes-another-configuration-after-construction")
 		} else {
@@ -1331,6 +1379,7 @@ func run(c Case) *vkit.Result {
 			// the caller writes into its own slice again; every verifier keeps the configuration it was constructed with
 			if v.keep != nil {
 				v.keep.overwrite(s.Writes)
+				v.applyVals(s.ValOps)
 			}
 			res.Label("reuse:overwrite-between-verifications")
 			si = stepInfo{Op: s.Op, key: fmt.Sprintf("overwrite%v", s.Writes)}
@@ -1463,7 +1512,11 @@ const ruleToken = "verifier config (issuer, client, offset, max iat age, max aut
 const ruleReuse = "kept option slices (30 % of the cases, verifier on its own and RelyingParty alike): the harness keeps the []rp.VerifierOption it passes to rp.NewIDTokenVerifier / rp.WithVerifierOpts and the []rp.Option it passes to rp.NewRelyingPartyOIDC (with 0-4 elements of spare capacity), " +
 	"and after the construction, before any verification, overwrites 0-3 generated elements with options of ANOTHER generated configuration; optionally a second verifier / RelyingParty is constructed from the slice as it is then (or, RelyingParty, from the []rp.Option whose WithVerifierOpts element was overwritten with the other configuration's options); " +
 	"histories write into the slice again between verifications; the RelyingParty's verifier is fetched with IDTokenVerifier() at each use; each token goes to the first or the second and is made for that one's configuration (2/3) or for the other one's (1/3); " +
-	"oracle = the per-token model under the configuration in force when that verifier was constructed (options folded in slice order over the constructor defaults)"
+	"oracle = the per-token model under the configuration in force when that verifier was constructed (options folded in slice order over the constructor defaults); " +
+	"caller-owned VALUE slices (half of these cases): the []string handed to oidc.DefaultACRVerifier / rp.WithSupportedSigningAlgorithms(algs...) are sub-slices (prefix / suffix / whole / middle, acr also empty) of ONE list of 2-4 acr levels and / or ONE list of 2-5 algorithms the harness keeps " +
+	"(a generated permutation, i.e. mostly not sorted, 0-2 elements of spare capacity): the first configuration's policies are built and the first verifier constructed, then the other configuration's policies are built from overlapping sub-slices of the same backing arrays; " +
+	"before and after that, and between verifications of a history, the caller sorts / reverses / overwrites an element of / appends to its lists in place (0-2 changes each time); tokens of such cases also carry an acr / alg from anywhere in the caller's list and any configured acr; " +
+	"oracle = the per-token model under the VALUES each policy was constructed with (tracked in a second set of slices the library never sees); only a token whose verdict differs between those values and what the caller's list holds at the same places at the time of the call (the caller changed them in place) is grey"
 
 var prop = vkit.Prop[Case]{
 	ID: "C01",
